@@ -60,11 +60,15 @@ Inductive lbl :=
 | ARdTl                            (* a read of generate_events._time_left (which test it feeds follows from the program point) *)
 | ARWrite | ARHd | ARGet | ASig    (* reduce_time_left: write, handler tests, resume() signal *)
 | AClear | AWait (woken : bool)
-| ASelect (ready : bool) | APipeRd
+| ASelect (w ready : bool)            (* select/poll/epoll called: control descriptor in the watched set? readable? *)
+| APreen                             (* the call failed on a stale descriptor; Select weeds out its descriptor lists *)
+| APipeRd
 | AFReadH | ARet.
 
 Record state := {
   md : mode;
+  pk : bool;                     (* configuration: the poller's maintenance (preen) keeps the control descriptor *)
+  watched : bool;                (* the control descriptor is in the set the poller passes to select/poll/epoll *)
   dq : list (nat * ev);          (* _EventQueue._queue (deque), with the counter of each entry *)
   hp : list (nat * ev);          (* _EventQueue._priority_queue (all priorities equal: key = counter) *)
   ctr : nat; batch : nat;
@@ -77,28 +81,32 @@ Record state := {
   disp : list ev                 (* ghost: events handed to _dispatcher, in order *)
 }.
 
-Definition init (m : mode) : state :=
-  {| md := m; dq := []; hp := []; ctr := 0; batch := 0; handling := None;
+Definition init_k (m : mode) (k : bool) : state :=
+  {| md := m; pk := k; watched := true; dq := []; hp := []; ctr := 0; batch := 0; handling := None;
      gs := fun _ => {| gtl := Neg; ghd := HNone |}; ngen := 0; nother := 0; cur := 0;
      lock := None; flag := false; pipe := 0; lp := LIdle;
      fts := fun _ => {| fp := FIdle; fapp := 0; fret := 0 |}; disp := [] |}.
 
+(* the code as it is: descriptor maintenance never drops the control descriptor *)
+Definition init (m : mode) : state := init_k m true.
+
 (* ---------------------------------------------------------------- field updates *)
-Definition set_dq s v := {| md := md s; dq := v; hp := hp s; ctr := ctr s; batch := batch s; handling := handling s; gs := gs s; ngen := ngen s; nother := nother s; cur := cur s; lock := lock s; flag := flag s; pipe := pipe s; lp := lp s; fts := fts s; disp := disp s |}.
-Definition set_hp s v := {| md := md s; dq := dq s; hp := v; ctr := ctr s; batch := batch s; handling := handling s; gs := gs s; ngen := ngen s; nother := nother s; cur := cur s; lock := lock s; flag := flag s; pipe := pipe s; lp := lp s; fts := fts s; disp := disp s |}.
-Definition set_ctr s v := {| md := md s; dq := dq s; hp := hp s; ctr := v; batch := batch s; handling := handling s; gs := gs s; ngen := ngen s; nother := nother s; cur := cur s; lock := lock s; flag := flag s; pipe := pipe s; lp := lp s; fts := fts s; disp := disp s |}.
-Definition set_batch s v := {| md := md s; dq := dq s; hp := hp s; ctr := ctr s; batch := v; handling := handling s; gs := gs s; ngen := ngen s; nother := nother s; cur := cur s; lock := lock s; flag := flag s; pipe := pipe s; lp := lp s; fts := fts s; disp := disp s |}.
-Definition set_handling s v := {| md := md s; dq := dq s; hp := hp s; ctr := ctr s; batch := batch s; handling := v; gs := gs s; ngen := ngen s; nother := nother s; cur := cur s; lock := lock s; flag := flag s; pipe := pipe s; lp := lp s; fts := fts s; disp := disp s |}.
-Definition set_gs s v := {| md := md s; dq := dq s; hp := hp s; ctr := ctr s; batch := batch s; handling := handling s; gs := v; ngen := ngen s; nother := nother s; cur := cur s; lock := lock s; flag := flag s; pipe := pipe s; lp := lp s; fts := fts s; disp := disp s |}.
-Definition set_ngen s v := {| md := md s; dq := dq s; hp := hp s; ctr := ctr s; batch := batch s; handling := handling s; gs := gs s; ngen := v; nother := nother s; cur := cur s; lock := lock s; flag := flag s; pipe := pipe s; lp := lp s; fts := fts s; disp := disp s |}.
-Definition set_nother s v := {| md := md s; dq := dq s; hp := hp s; ctr := ctr s; batch := batch s; handling := handling s; gs := gs s; ngen := ngen s; nother := v; cur := cur s; lock := lock s; flag := flag s; pipe := pipe s; lp := lp s; fts := fts s; disp := disp s |}.
-Definition set_cur s v := {| md := md s; dq := dq s; hp := hp s; ctr := ctr s; batch := batch s; handling := handling s; gs := gs s; ngen := ngen s; nother := nother s; cur := v; lock := lock s; flag := flag s; pipe := pipe s; lp := lp s; fts := fts s; disp := disp s |}.
-Definition set_lock s v := {| md := md s; dq := dq s; hp := hp s; ctr := ctr s; batch := batch s; handling := handling s; gs := gs s; ngen := ngen s; nother := nother s; cur := cur s; lock := v; flag := flag s; pipe := pipe s; lp := lp s; fts := fts s; disp := disp s |}.
-Definition set_flag s v := {| md := md s; dq := dq s; hp := hp s; ctr := ctr s; batch := batch s; handling := handling s; gs := gs s; ngen := ngen s; nother := nother s; cur := cur s; lock := lock s; flag := v; pipe := pipe s; lp := lp s; fts := fts s; disp := disp s |}.
-Definition set_pipe s v := {| md := md s; dq := dq s; hp := hp s; ctr := ctr s; batch := batch s; handling := handling s; gs := gs s; ngen := ngen s; nother := nother s; cur := cur s; lock := lock s; flag := flag s; pipe := v; lp := lp s; fts := fts s; disp := disp s |}.
-Definition set_lp s v := {| md := md s; dq := dq s; hp := hp s; ctr := ctr s; batch := batch s; handling := handling s; gs := gs s; ngen := ngen s; nother := nother s; cur := cur s; lock := lock s; flag := flag s; pipe := pipe s; lp := v; fts := fts s; disp := disp s |}.
-Definition set_fts s v := {| md := md s; dq := dq s; hp := hp s; ctr := ctr s; batch := batch s; handling := handling s; gs := gs s; ngen := ngen s; nother := nother s; cur := cur s; lock := lock s; flag := flag s; pipe := pipe s; lp := lp s; fts := v; disp := disp s |}.
-Definition set_disp s v := {| md := md s; dq := dq s; hp := hp s; ctr := ctr s; batch := batch s; handling := handling s; gs := gs s; ngen := ngen s; nother := nother s; cur := cur s; lock := lock s; flag := flag s; pipe := pipe s; lp := lp s; fts := fts s; disp := v |}.
+Definition set_watched s v := {| md := md s; pk := pk s; watched := v; dq := dq s; hp := hp s; ctr := ctr s; batch := batch s; handling := handling s; gs := gs s; ngen := ngen s; nother := nother s; cur := cur s; lock := lock s; flag := flag s; pipe := pipe s; lp := lp s; fts := fts s; disp := disp s |}.
+Definition set_dq s v := {| md := md s; pk := pk s; watched := watched s; dq := v; hp := hp s; ctr := ctr s; batch := batch s; handling := handling s; gs := gs s; ngen := ngen s; nother := nother s; cur := cur s; lock := lock s; flag := flag s; pipe := pipe s; lp := lp s; fts := fts s; disp := disp s |}.
+Definition set_hp s v := {| md := md s; pk := pk s; watched := watched s; dq := dq s; hp := v; ctr := ctr s; batch := batch s; handling := handling s; gs := gs s; ngen := ngen s; nother := nother s; cur := cur s; lock := lock s; flag := flag s; pipe := pipe s; lp := lp s; fts := fts s; disp := disp s |}.
+Definition set_ctr s v := {| md := md s; pk := pk s; watched := watched s; dq := dq s; hp := hp s; ctr := v; batch := batch s; handling := handling s; gs := gs s; ngen := ngen s; nother := nother s; cur := cur s; lock := lock s; flag := flag s; pipe := pipe s; lp := lp s; fts := fts s; disp := disp s |}.
+Definition set_batch s v := {| md := md s; pk := pk s; watched := watched s; dq := dq s; hp := hp s; ctr := ctr s; batch := v; handling := handling s; gs := gs s; ngen := ngen s; nother := nother s; cur := cur s; lock := lock s; flag := flag s; pipe := pipe s; lp := lp s; fts := fts s; disp := disp s |}.
+Definition set_handling s v := {| md := md s; pk := pk s; watched := watched s; dq := dq s; hp := hp s; ctr := ctr s; batch := batch s; handling := v; gs := gs s; ngen := ngen s; nother := nother s; cur := cur s; lock := lock s; flag := flag s; pipe := pipe s; lp := lp s; fts := fts s; disp := disp s |}.
+Definition set_gs s v := {| md := md s; pk := pk s; watched := watched s; dq := dq s; hp := hp s; ctr := ctr s; batch := batch s; handling := handling s; gs := v; ngen := ngen s; nother := nother s; cur := cur s; lock := lock s; flag := flag s; pipe := pipe s; lp := lp s; fts := fts s; disp := disp s |}.
+Definition set_ngen s v := {| md := md s; pk := pk s; watched := watched s; dq := dq s; hp := hp s; ctr := ctr s; batch := batch s; handling := handling s; gs := gs s; ngen := v; nother := nother s; cur := cur s; lock := lock s; flag := flag s; pipe := pipe s; lp := lp s; fts := fts s; disp := disp s |}.
+Definition set_nother s v := {| md := md s; pk := pk s; watched := watched s; dq := dq s; hp := hp s; ctr := ctr s; batch := batch s; handling := handling s; gs := gs s; ngen := ngen s; nother := v; cur := cur s; lock := lock s; flag := flag s; pipe := pipe s; lp := lp s; fts := fts s; disp := disp s |}.
+Definition set_cur s v := {| md := md s; pk := pk s; watched := watched s; dq := dq s; hp := hp s; ctr := ctr s; batch := batch s; handling := handling s; gs := gs s; ngen := ngen s; nother := nother s; cur := v; lock := lock s; flag := flag s; pipe := pipe s; lp := lp s; fts := fts s; disp := disp s |}.
+Definition set_lock s v := {| md := md s; pk := pk s; watched := watched s; dq := dq s; hp := hp s; ctr := ctr s; batch := batch s; handling := handling s; gs := gs s; ngen := ngen s; nother := nother s; cur := cur s; lock := v; flag := flag s; pipe := pipe s; lp := lp s; fts := fts s; disp := disp s |}.
+Definition set_flag s v := {| md := md s; pk := pk s; watched := watched s; dq := dq s; hp := hp s; ctr := ctr s; batch := batch s; handling := handling s; gs := gs s; ngen := ngen s; nother := nother s; cur := cur s; lock := lock s; flag := v; pipe := pipe s; lp := lp s; fts := fts s; disp := disp s |}.
+Definition set_pipe s v := {| md := md s; pk := pk s; watched := watched s; dq := dq s; hp := hp s; ctr := ctr s; batch := batch s; handling := handling s; gs := gs s; ngen := ngen s; nother := nother s; cur := cur s; lock := lock s; flag := flag s; pipe := v; lp := lp s; fts := fts s; disp := disp s |}.
+Definition set_lp s v := {| md := md s; pk := pk s; watched := watched s; dq := dq s; hp := hp s; ctr := ctr s; batch := batch s; handling := handling s; gs := gs s; ngen := ngen s; nother := nother s; cur := cur s; lock := lock s; flag := flag s; pipe := pipe s; lp := v; fts := fts s; disp := disp s |}.
+Definition set_fts s v := {| md := md s; pk := pk s; watched := watched s; dq := dq s; hp := hp s; ctr := ctr s; batch := batch s; handling := handling s; gs := gs s; ngen := ngen s; nother := nother s; cur := cur s; lock := lock s; flag := flag s; pipe := pipe s; lp := lp s; fts := v; disp := disp s |}.
+Definition set_disp s v := {| md := md s; pk := pk s; watched := watched s; dq := dq s; hp := hp s; ctr := ctr s; batch := batch s; handling := handling s; gs := gs s; ngen := ngen s; nother := nother s; cur := cur s; lock := lock s; flag := flag s; pipe := pipe s; lp := lp s; fts := fts s; disp := v |}.
 
 Definition upd {A} (f : nat -> A) (i : nat) (v : A) : nat -> A := fun j => if Nat.eqb j i then v else f j.
 
@@ -265,14 +273,16 @@ Definition lstep (a : lbl) (s : state) : option state :=
   | WWaitU, AWait w => if Bool.eqb w (flag s) then Some (set_lp s WTestNeg) else None
   (* poller *)
   | PRead, ARdTl => Some (set_lp s (PSel (gtl (gs s (cur s)))))
-  | PSel x, ASelect ready =>
-      if Bool.eqb ready (0 <? pipe s) then
+  | PSel x, ASelect w ready =>
+      (* the waiter wakes iff the control descriptor is watched AND a byte is in the pipe *)
+      if Bool.eqb w (watched s) && Bool.eqb ready (watched s && (0 <? pipe s)) then
         if ready then Some (set_lp s PDrain)
         else match x with
              | Neg => None                    (* select without timeout and nothing readable never returns *)
              | _ => Some (set_lp s LClr)
              end
       else None
+  | PSel x, APreen => Some (set_lp (set_watched s (watched s && pk s)) LClr)
   | PDrain, APipeRd => Some (set_lp (set_pipe s (pred (pipe s))) LClr)
   | LClr, AClr => Some (after_event (set_handling s None))
   | _, _ => None
@@ -335,7 +345,7 @@ Definition blocked (s : state) : bool :=
   match lp s with
   | WWaitU => negb (flag s)
   | WWaitT Pos => negb (flag s)
-  | PSel Neg | PSel Pos => pipe s =? 0
+  | PSel Neg | PSel Pos => negb (watched s && (0 <? pipe s))
   | _ => false
   end.
 
